@@ -457,6 +457,27 @@ pub fn generate(seed: u64, knobs: &Knobs) -> C10Scenario {
                     body: Body::Text(text),
                 });
             }
+            22..=29 if !world.aliases.is_empty() && rh.chance(1, 3) && !avoid("luaurc-edit") => {
+                // the root .luaurc changes what `@lib` means (it now points where the nested
+                // one points, or back): files using the alias must be generated again
+                let root_dir = world.aliases[0].dir.clone();
+                let nested_target = world.aliases[1].target.clone();
+                let original_target = gen::join(&root_dir, "sub");
+                let new_target = if world.aliases[0].target == original_target {
+                    nested_target
+                } else {
+                    original_target
+                };
+                world.aliases[0].target = new_target.clone();
+                let rel = new_target
+                    .strip_prefix(&format!("{}/", root_dir))
+                    .unwrap_or(&new_target)
+                    .to_owned();
+                new_ops.push(Op::Edit {
+                    path: gen::join(&root_dir, ".luaurc"),
+                    body: Body::Text(format!("{{ \"aliases\": {{ \"lib\": \"./{}\" }} }}\n", rel)),
+                });
+            }
             22..=29 => {
                 // edit a module outside the input, or a data file
                 if !world.externals.is_empty() && rh.chance(2, 3) {
